@@ -549,7 +549,7 @@ theorem int_eq : int = (do
     intTail c) := rfl
 
 /-- behind a sign of at most one byte, with the frame of `pars.Int` on top of the stack -/
-theorem intTail_spec (sgn : Bytes) (hs : ∀ x ∈ sgn, inLine x = true) (hsl : sgn.length ≤ 1)
+theorem intTail_spec (sgn : Bytes) (hsl : sgn.length ≤ 1)
     (y : UInt8) (r : Bytes) (stk : List Bytes) (cost : Nat) :
     (intTail y ⟨⟨y :: r, (sgn ++ y :: r) :: stk⟩, cost⟩).2.cost ≤ cost + 2 * lineLen (y :: r) + 3 ∧
     ∀ a, (intTail y ⟨⟨y :: r, (sgn ++ y :: r) :: stk⟩, cost⟩).1 = .ok a →
@@ -613,13 +613,13 @@ theorem lin_int : Lin 7 int := by
       | cons y r' =>
         simp only [PC.bind_run, push, next, advance1, getS, setS, tick, pure, ExceptT.pure, ExceptT.mk,
           StateT.pure, hs, if_true, List.drop_one, List.tail_cons]
-        have ⟨k1, k2⟩ := intTail_spec [x] (by simpa using hx) (by simp) y r' stk (cost + 1 + 1 + 1 + 1)
+        have ⟨k1, k2⟩ := intTail_spec [x] (by simp) y r' stk (cost + 1 + 1 + 1 + 1)
         simp only [List.singleton_append] at k1 k2
         simp only [pot] at k2 ⊢
         exact ⟨by omega, fun a h => by have := k2 a h; omega⟩
     · simp only [PC.bind_run, push, next, getS, setS, tick, pure, ExceptT.pure, ExceptT.mk,
         StateT.pure, hs, if_false, Bool.false_eq_true]
-      have ⟨k1, k2⟩ := intTail_spec [] (by simp) (by simp) x r stk (cost + 1 + 1)
+      have ⟨k1, k2⟩ := intTail_spec [] (by simp) x r stk (cost + 1 + 1)
       simp only [List.nil_append] at k1 k2
       simp only [pot] at k2 ⊢
       exact ⟨by omega, fun a h => by have := k2 a h; omega⟩
